@@ -268,6 +268,16 @@ func C06(r *simkit.Run) {
 		var what string
 		pick := func() string { return names[t.Draw("file", len(names))] }
 		isIgnored := func(n string) bool { return strings.HasPrefix(string(m[n]), sumIgnoreLine) }
+		// The name of a sum-ignored file still feeds the cumulative hash: adding, removing or
+		// renaming it is detectable exactly when a hashed file sorts after it.
+		hashedAfter := func(n string) bool {
+			for _, o := range names {
+				if o > n && !isIgnored(o) {
+					return true
+				}
+			}
+			return false
+		}
 		switch t.Weighted("tamper", 4, 2, 2, 2, 2, 1, 1, 1, 4, 1, 1) {
 		case 0: // flip / insert / delete one byte
 			n := pick()
@@ -307,26 +317,42 @@ func C06(r *simkit.Run) {
 			if _, exists := m[n]; exists {
 				continue
 			}
+			if t.Chance("added-file-is-sum-ignored", 1, 4) {
+				if !hashedAfter(n) {
+					continue
+				}
+				dk.write(n, []byte(sumIgnoreLine+body()))
+				what = "add-ignored-file(" + pos + ") " + n
+				r.Probe("sum-ignored-file-added-removed-renamed")
+				break
+			}
 			dk.write(n, []byte(body()))
 			what = "add-file(" + pos + ") " + n
 		case 2: // remove
 			n := pick()
 			if isIgnored(n) {
-				continue
+				if !hashedAfter(n) {
+					continue
+				}
+				r.Probe("sum-ignored-file-added-removed-renamed")
 			}
 			dk.remove(n)
 			what = "remove-file " + n
 		case 3: // rename
 			n := pick()
-			if isIgnored(n) {
-				continue
-			}
+			ign := isIgnored(n)
 			nn := n[:len(n)-4] + "x.sql" // order-preserving in most directories
 			if t.Chance("rename-reorders", 1, 2) {
 				nn = "3" + n[1:]
 			}
 			if _, exists := m[nn]; exists || nn == n {
 				continue
+			}
+			if ign {
+				if !hashedAfter(n) || !hashedAfter(nn) {
+					continue
+				}
+				r.Probe("sum-ignored-file-added-removed-renamed")
 			}
 			dk.write(nn, m[n])
 			dk.remove(n)
